@@ -8,14 +8,18 @@
 EXTENDS AbraArgs, TLCExt
 CONSTANTS MaxArity,      \* parameter lists of arity 0..MaxArity
           Len3,          \* cap on the number of arguments written for arity 3 (4 = arity + 1 = complete)
+          Len3x,         \* the same cap for the callee kinds outside Len3Kinds
+          Len3Kinds,     \* the callee kinds enumerated up to Len3 at arity 3
           UnkLen2, UnkLen3,  \* cap on the length of label sequences that contain the unknown name (arity 2, arity 3)
+          Defaults3,     \* the default subsets enumerated at arity 3 (all 8 in the thorough tier)
           CallArity      \* sub-family "defaults that are calls": arities 1..CallArity on free and member functions
 VARIABLE c
-MaxLen(n) == IF n = 3 THEN Len3 ELSE n + 1
+MaxLen(k, n) == IF n = 3 THEN (IF k \in Len3Kinds THEN Len3 ELSE Len3x) ELSE n + 1
 UnkLen(n) == IF n = 3 THEN UnkLen3 ELSE IF n = 2 THEN UnkLen2 ELSE n + 1
-LabelSeqs(n) == {l \in Seqs(Alphabet(n), MaxLen(n)) : (\E k \in 1..Len(l) : l[k] = Unk) => Len(l) <= UnkLen(n)}
-SpaceOf(k, n, dk, Ds) == {[kind |-> k, n |-> n, D |-> D, dk |-> dk, labels |-> l] : D \in Ds, l \in LabelSeqs(n)}
-Space == UNION {UNION {SpaceOf(k, n, "lit", SUBSET (1..n)) : n \in MinArity(k)..MaxArity} : k \in Kinds}
+LabelSeqs(k, n) == {l \in Seqs(Alphabet(n), MaxLen(k, n)) : (\E j \in 1..Len(l) : l[j] = Unk) => Len(l) <= UnkLen(n)}
+SpaceOf(k, n, dk, Ds) == {[kind |-> k, n |-> n, D |-> D, dk |-> dk, labels |-> l] : D \in Ds, l \in LabelSeqs(k, n)}
+DefaultSets(n) == IF n = 3 THEN Defaults3 ELSE SUBSET (1..n)
+Space == UNION {UNION {SpaceOf(k, n, "lit", DefaultSets(n)) : n \in MinArity(k)..MaxArity} : k \in Kinds}
          \cup UNION {UNION {SpaceOf(k, n, "call", (SUBSET (1..n)) \ {{}}) : n \in 1..CallArity} : k \in {"free", "member"}}
 ShardNo(s) == CHOOSE i \in 0..63 : ToString(i) = s
 Code(s) == Len(s.kind) + s.n + 2 * Cardinality(s.D) + Len(s.labels) + Cardinality({k \in 1..Len(s.labels) : s.labels[k] = ""})
